@@ -323,7 +323,7 @@ theorem OK_ne_ERROR : ERROR ≠ OK := by decide
 
 theorem deser_summary (k : Nat) (elems : List DShape) :
     Balanced (deserialize k elems).2.2.evs (match (deserialize k elems).2.1 with | some g => g | none => []) ∧
-    ((deserialize k elems).1 = OK ∨ (deserialize k elems).1 = ERROR) ∧
+    ((deserialize k elems).1 = OK ∨ (deserialize k elems).1 = MEMORY_ERROR) ∧
     ((deserialize k elems).1 = OK ↔ (deserialize k elems).2.1.isSome) ∧
     ((deserialize k elems).1 = OK ↔ NoFail (deserialize k elems).2.2.evs) := by
   rcases deserialize_spec k elems {} [] Inv.nil with ⟨g, h1, h2, h3, h4⟩ | ⟨h1, h2, h3, h4⟩
@@ -332,6 +332,6 @@ theorem deser_summary (k : Nat) (elems : List DShape) :
     exact ⟨by simpa using h4.1, .inl rfl, by simp, by simpa using g'.2.2.1⟩
   · have b := bad_init h3
     rw [h1, h2]
-    exact ⟨h4.1, .inr rfl, by simp [OK_ne_ERROR], by simpa [OK_ne_ERROR] using b.2.2.1⟩
+    exact ⟨h4.1, .inr rfl, by simp [OK_ne_MEMORY_ERROR], by simpa [OK_ne_MEMORY_ERROR] using b.2.2.1⟩
 
 end CifModel.Lemmas.Ladder
